@@ -82,7 +82,7 @@ pub fn c17(h: &mut H) {
     let n = &k.n_mod;
     let b = field(&k.pk, "b");
     let hh = field(&ck, "h");
-    let gs: Vec<Integer> = ck["g_bases"].as_array().unwrap().iter().map(int_of).collect();
+    let gs: Vec<Integer> = gbases(&ck);
     let mut pairs: Vec<(Integer, Integer)> = k.bases.iter().map(|a| (a.clone(), b.clone())).collect();
     pairs.extend(gs.iter().map(|g| (g.clone(), hh.clone())));
     // attacker computations of the property on everything a prover sends
@@ -174,11 +174,42 @@ fn far(q: &Integer, x: &Integer) -> bool {
     Integer::from(q - x).abs() >= two64()
 }
 
+
+/// DESIGN O6 / F12: the Boudot proof of square answers for x_1 = floor(sqrt(2^T x - aa)) with
+/// d = omega + c * x_1 where omega < 2^(l+t) * rmax is far SHORTER than c * x_1 (c is a 256-bit hash):
+/// floor(d / c) gives x_1 up to 2^169 and (x_1^2 + aa) / 2^T gives the committed value up to a few units.
+/// Uses public data only (the serialized range proof and its public bounds).
+fn boudot_estimate(rp: &Value, a: &Integer, b: &Integer) -> Option<Integer> {
+    let t = 2 * (128 + 40 + 1) + Integer::from(b - a).significant_bits();
+    let sq = Integer::from(b - a).sqrt();
+    let kk = pow2(40 + 128 + t / 2 + 1) * sq;
+    let aa = Integer::from(pow2(t) * a) - &kk;
+    let ss = &rp["proof_of_tolerance"]["proof_of_square_a"]["proof_ss"];
+    let d = field(ss, "d");
+    let c = field(ss, "challenge");
+    if c <= 0 {
+        return None;
+    }
+    let x1 = Integer::from(&d / &c);
+    let xa = Integer::from(&x1 * &x1);
+    Some(Integer::from(xa + aa) >> t)
+}
+
+fn boudot_leaks(h: &mut H, what: &str, rps: &[(String, Value, Integer, Integer, Integer)], id: u64) {
+    for (nm, rp, a, b, secret) in rps {
+        if let Some(est) = boudot_estimate(rp, a, b) {
+            let dist = Integer::from(&est - secret).abs();
+            h.stat("C19.boudot_estimates");
+            h.expect(dist >= two64(), "C19.boudot_square_response", &format!("{}: the proof-of-square response of {} divided by its challenge recovers the committed secret to within {} (public data only)", what, nm, dist), &[id]);
+        }
+    }
+}
+
 pub fn c19(h: &mut H) {
     let (k, ck, issues, poks) = setup(h);
     let b = field(&k.pk, "b");
     let hh = field(&ck, "h");
-    let gs: Vec<Integer> = ck["g_bases"].as_array().unwrap().iter().map(int_of).collect();
+    let gs: Vec<Integer> = gbases(&ck);
     let check = |h: &mut H, what: &str, proof: &Value, challenges: &[(String, Integer)], secrets: &[(String, Integer)], id: u64| {
         let mut lv = Vec::new();
         leaves(proof, String::new(), &mut lv);
@@ -230,6 +261,13 @@ pub fn c19(h: &mut H) {
         let _ = n_hidden;
         let id = h.last();
         check(h, "issuance", &iss.zk, &ch, &secrets, id);
+        let p = params(h.suite);
+        let mut rps: Vec<(String, Value, Integer, Integer, Integer)> = Vec::new();
+        for (j, &i) in iss.hidden.iter().enumerate() {
+            rps.push((format!("hidden attribute m_{}", i), iss.zk["range_proofs_mi"][j].clone(), Integer::from(0), pow2(p.lm) - 1, iss.msgs[i].clone()));
+        }
+        rps.push(("commitment randomness r".into(), iss.zk["range_proof_r"].clone(), Integer::from(0), pow2(p.ln) - 1, field(&iss.c, "randomness")));
+        boudot_leaks(h, "issuance", &rps, id);
     }
     for pk in &poks {
         let mut secrets: Vec<(String, Integer)> = pk.hidden.iter().map(|&i| (format!("m_{}", i), pk.msgs[i].clone())).collect();
@@ -246,6 +284,13 @@ pub fn c19(h: &mut H) {
         }
         let id = h.last();
         check(h, "signature_proof", &pk.pok, &ch, &secrets, id);
+        let p = params(h.suite);
+        let mut rps: Vec<(String, Value, Integer, Integer, Integer)> = Vec::new();
+        for (j, &i) in pk.hidden.iter().enumerate() {
+            rps.push((format!("hidden attribute m_{}", i), pk.pok["range_proofs_commited_mi"][j].clone(), Integer::from(0), pow2(p.lm) - 1, pk.msgs[i].clone()));
+        }
+        rps.push(("signature exponent e".into(), pk.pok["range_proof_e"].clone(), pow2(p.le - 1) + 1, pow2(p.le) - 1, field(&pk.sig, "e")));
+        boudot_leaks(h, "signature_proof", &rps, id);
         // two proofs from the same signature must not be linkable through a recovered e
         let e = field(&pk.sig, "e");
         let s4 = field(&pk.pok["spok"], "s_4");
